@@ -97,11 +97,13 @@ var c08Progs = []c08prog{
 	{[]string{"local", "f", "=", "function", "(", "a", ")", "return", "a", "*", "2", "end", "return", "f", "(", "4", ")"}},
 	{[]string{"local", "a", "=", "'q'", "if", "a", "==", "'q'", "then", "return", "1", "else", "return", "2", "end"}},
 	{[]string{"local", "n", "=", "0", "while", "n", "<", "3", "do", "n", "=", "n", "+", "1", "end", "return", "n", ";"}},
+	// a statement starting with a parenthesis right after a closing parenthesis, and calls after it
+	{[]string{"local", "function", "set", "(", "a", ",", "v", ")", "(", "a", ")", ".", "x", "=", "v", "end", "local", "t", "=", "{", "}", "set", "(", "t", ",", "5", ")", "return", "(", "t", ")", ".", "x"}},
 }
 
 // C08.layout — comment forms, blank space and line ends between tokens do not change the meaning.
 //
-//verif:harness prop=C08 tier=quick qparams=gaps:1 tparams=gaps:2 bounds="6 token sequences; gaps (1 quick / 2 thorough positions chosen per path) filled from 16 separators: blank, tab, FF, VT, LF, CR, CRLF, LFCR, line comments (incl. the texts `[`, `[=` and `]]`), long comments of level 0 and 2 spanning lines; every other gap is a single blank"
+//verif:harness prop=C08 tier=quick qparams=gaps:1 tparams=gaps:2 bounds="7 token sequences; gaps (1 quick / 2 thorough positions chosen per path) filled from 16 separators: blank, tab, FF, VT, LF, CR, CRLF, LFCR, line comments (incl. the texts `[`, `[=` and `]]`), long comments of level 0 and 2 spanning lines; every other gap is a single blank"
 func H_C08_layout() {
 	p := c08Progs[VChoice(len(c08Progs))]
 	ngaps := VParam("gaps", 2)
